@@ -164,7 +164,12 @@ def river_case(rec):
     # list input = the list of the row-wise results, in order
     it2 = iter(labels)
     w2 = RiverWrapper(lambda x: next(it2))
-    got = w2([{"a": 1.0}] * len(labels))
+    try:
+        got = w2([{"a": 1.0}] * len(labels))
+    except Exception as e:
+        return probs + [("wrapper.river_batch", "list input raised %s: %s" % (type(e).__name__, str(e)[:120]))]
+    if not isinstance(got, list) or any(not isinstance(g, dict) for g in got):
+        return probs + [("wrapper.river_batch", "list input: %r is not a list of dicts (canonical %r)" % (got, rec["outs"]))]
     if [sorted(g.items()) for g in got] != [sorted((k, float(v)) for k, v in o.items()) for o in rec["outs"]]:
         probs.append(("wrapper.river_batch", "list input: %r, canonical %r" % (got, rec["outs"])))
     return probs
